@@ -281,6 +281,7 @@ class TxMonitor {
       }
       const AnswerDef* a = cfg.answer ? refAnswer(cfg, m) : nullptr;
       if (i < n && isHost(i) && log[i].hostWrote == 0xAA && log[i].gapBefore) return i;   // an AUTO-SYN of the host after silence, not an acknowledge
+      if (i < n && !isHost(i) && !crcOk && attempt == 0 && log[i].b == 0xFF && !log[i].gapBefore) { i++; continue; }   // somebody else rejected the damaged command: the requester repeats it
       if (i >= n || !isHost(i)) {             // somebody else (or nobody) acknowledged
         if (a && crcOk && i < n) add("c15-no-answer", "registered answer for " + vf::hex(m) + " but the host stays silent at " + ctx(log, i));
         return i;
@@ -298,7 +299,7 @@ class TxMonitor {
       std::vector<uint8_t> W = specWire(a->resp);
       for (int rattempt = 0; rattempt < 2; rattempt++) {
         for (size_t p = 0; p < W.size(); p++, i++) {
-          if (i >= n || !isHost(i)) { if (i > 0 && log[i - 1].b != log[i - 1].hostWrote) return i; add("c15-response-incomplete", vf::hex(m) + " at " + ctx(log, i)); return i; }
+          if (i >= n || !isHost(i)) { if (i > 0 && isHost(i - 1) && log[i - 1].b != log[i - 1].hostWrote) return i; add(p == 0 && rattempt == 1 ? "c15-response-not-repeated-after-nak" : "c15-response-incomplete", vf::hex(m) + " at " + ctx(log, i)); return i; }
           if (log[i].hostWrote != W[p]) { add("c15-response-content", "expected " + vf::hex1(W[p]) + " of " + vf::hex(W) + " at " + ctx(log, i)); return i + 1; }
           if (log[i].b != log[i].hostWrote) return i + 1;
         }
